@@ -231,7 +231,13 @@ fn exec_s<C: GenericConfig<D, F = F>, const COLS: usize, const PIS: usize>(case:
         for k in 0..PIS {
             plan_f.push(SFault::ProverPi(k, (inst.pis[k] + 1) % P));
         }
-        if r3 {
+        // a trace whose columns are all constant gives a challenge-independent proof (all openings fit any
+        // zeta and any query set): the R3 argument does not apply, a cap entry no new query lands on is legitimately unbound
+        let degenerate = inst.rows.iter().all(|row| row == &inst.rows[0]);
+        if degenerate {
+            rep.probe("c09.constant_trace_message_faults_skipped");
+        }
+        if r3 && !degenerate {
             let tree = serde_json::to_value(&proof).unwrap();
             for f in plan(&tree, &mut r, false, false) {
                 // keep the message-fault budget small: one in three planned faults
